@@ -349,43 +349,6 @@ fn kv<'a>(tok: &'a str, key: &str) -> &'a str {
 }
 
 
-/// A node whose store has the freezer enabled.  `Node::start_with_ancient` passes the ancient path
-/// but `build_store` only opens the freezer when `StoreConfig::freezer_enable` is set, which node.rs
-/// does not do; so the `Shared` / chain service of a throw-away node are replaced by ones built here
-/// (same builder calls as node.rs plus the store config).
-pub fn start_freezer_node(dir: &std::path::Path, ancient: &std::path::Path, consensus: ckb_chain_spec::consensus::Consensus, cfg: &NodeCfg) -> Node {
-    use ckb_app_config::{BlockAssemblerConfig, StoreConfig};
-    let scratch = dir.parent().unwrap().join("throwaway-node");
-    let _ = std::fs::remove_dir_all(&scratch);
-    let mut node = Node::start(&scratch, consensus.clone(), cfg);
-    std::fs::create_dir_all(dir.join("header_map")).unwrap();
-    std::fs::create_dir_all(ancient).unwrap();
-    let db_config = ckb_app_config::DBConfig { path: dir.join("db"), ..Default::default() };
-    let builder = ckb_shared::SharedBuilder::new("verif", dir, &db_config, Some(ancient.to_path_buf()), runtime_handle(), consensus.clone())
-        .unwrap_or_else(|e| panic!("SharedBuilder::new failed: {e:?}"))
-        .header_map_tmp_dir(Some(dir.join("header_map")))
-        .store_config(StoreConfig { freezer_enable: true, ..Default::default() });
-    let ba = BlockAssemblerConfig {
-        code_hash: ckb_types::h256!("0x0"),
-        args: Default::default(),
-        hash_type: ckb_jsonrpc_types::ScriptHashType::Data,
-        message: Default::default(),
-        use_binary_version_as_message_prefix: false,
-        binary_version: "TEST".to_string(),
-        update_interval_millis: 800,
-        notify: vec![],
-        notify_scripts: vec![],
-        notify_timeout_millis: 800,
-    };
-    let (shared, mut pack) = builder.block_assembler_config(Some(ba)).build().unwrap_or_else(|e| panic!("SharedBuilder::build failed: {e:?}"));
-    let chain = ckb_chain::ChainServiceScope::new(pack.take_chain_services_builder());
-    node.chain = Some(chain);
-    node.shared = shared;
-    node.dir = dir.to_path_buf();
-    let _ = std::fs::remove_dir_all(&scratch);
-    node
-}
-
 // ------------------------------------------------------------------------------------------------
 // executor: op lines -> real node
 // ------------------------------------------------------------------------------------------------
@@ -627,7 +590,10 @@ impl<'a> Exec<'a> {
                 let _ = std::fs::remove_dir_all(&dir);
                 self.gdiff = consensus.genesis_block().difficulty();
                 self.node = Some(if self.ancient {
-                    start_freezer_node(&dir.join("node"), &dir.join("ancient"), consensus.clone(), &cfg)
+                    {
+                        std::fs::create_dir_all(dir.join("ancient")).unwrap();
+                        Node::start_with_ancient(&dir.join("node"), consensus.clone(), &cfg, Some(dir.join("ancient")))
+                    }
                 } else {
                     Node::start(&dir.join("node"), consensus.clone(), &cfg)
                 });
@@ -774,7 +740,7 @@ impl<'a> Exec<'a> {
         let (dir, consensus) = (node.dir.clone(), node.consensus.clone());
         node.stop();
         let anc = dir.parent().unwrap().join("ancient");
-        self.node = Some(if self.ancient { start_freezer_node(&dir, &anc, consensus, &self.cfg) } else { Node::start(&dir, consensus, &self.cfg) });
+        self.node = Some(if self.ancient { Node::start_with_ancient(&dir, consensus, &self.cfg, Some(anc)) } else { Node::start(&dir, consensus, &self.cfg) });
         self.start_reader();
     }
 }
